@@ -13,6 +13,10 @@ def hook_commits():
 
 # id -> (technique, level text, level note, design ref)
 CHECKS = {
+ "C01": ("exhaustive small-universe enumeration + rapid-generated rule sets x event histories against a reference matcher written from the statement; three drivers (rule index, started processor, ECAL sinks)",
+         "Exploration. Rule sets of 1-8 rules (and wide sets of 60-70 state rules on one kind) with overlapping / duplicate kind patterns over {a,b,c,*}, scope matches, state matches (NULL, scalars, regular expressions, containers), priorities and suppression lists are combined with histories of 1-6 events whose names collide across kinds, each with its own cascade scope, on 1-4 workers. The same case runs through RuleIndex.Match/IsTriggering, through a started Processor with AddEventAndWait (rule actions record (rule, event identity)), and for a sample as ECAL sink declarations with addEventAndWait. Oracle = the harness's own matcher (kind segment-wise with *, state with NULL/equal/regex, most-specific-prefix scopes, suppression by any other matching in-scope rule): exactly that set, each exactly once; Match = the kind-and-state set without duplicates; a non-empty set means a non-nil monitor and IsTriggering. Both tiers enumerate completely all ordered rule pairs over {a,*} patterns x three state matches x all two-event histories sharing a name (35 k cases quick, 1.7 M thorough).",
+         "Events involving container-valued requirements or values are only required not to crash and to fire at most once (the statement does not define equality on containers). A watchdog (20 s) turns a Match that never returns into a reproducible verdict through the write-ahead case file.",
+         "DESIGN.md 4/C01"),
  "C02": ("rapid-generated cascade trees x worker counts x perturbation plans over monitor/task/pool hook points; history invariants over stamps recorded by the rule actions; Go API and ECAL addEventAndWait routes",
          "Exploration with an owned schedule at the hook points. Cascade trees (<= 25 events, depth <= 4, fan-out <= 4, 1-3 rules per event kind, failing rules and skipped non-triggering children at generated positions) are run 1-6 at a time from separate goroutines on 1-16 workers under both failOnFirstError settings, with a generated perturbation plan (directed holds between the counter decrement and the finished notification, between SetErrors and Finish, between Push and Signal, plus random yield/sleep/hold rules). Invariants when AddEventAndWait returns: every expected action has a finish stamp below the return stamp and none starts later; no unexpected action ran; every monitor handed out with an event is finished; AllErrors is exactly the expected set of (event, rule) pairs, each carrying that action's own error value and event, none from another cascade; after quiescence the finish handler ran exactly once and no action ran twice. One case in five goes through ECAL source (sinks that addEvent, main program addEventAndWait; report type/detail/data/event kind per failing sink). Liveness ('it does return') by the stuck-state rule: all workers idle, no active hold, three identical samples, bound >= 5 s.",
          "Interleavings are sampled, not enumerated; windows at hook points are reached deterministically by directed plans. Root events are always triggering (a skipped root has no cascade).",
@@ -53,6 +57,10 @@ CHECKS = {
          "Exploration. 2-16 threads (direct Eval with distinct thread ids, sink invocations on pool workers, cascades, mixed) run generated bodies with blocks over 1-3 names, nesting <= 3, re-entry, and every exit kind (fall through, error, return, break, continue, caught by an outer try, propagating out of the thread). Go probe functions registered in the stdlib observe entry/exit: no other thread may be inside a name at entry; read-yield-write counters must not lose updates; all threads finish; every named mutex is free (TryLock) and the owner table is clear at the end; 78 directed cases park a holder inside a block to make non-exclusion of different names and release-after-error deterministic.",
          "Schedules are sampled, not enumerated (no hook inside mutexRuntime.Eval); deadlock-type verdicts use the stuck-state rule (60 s bound AND a provably final state, otherwise inconclusive = exit 2).",
          "DESIGN.md 4/C12"),
+ "C13": ("rapid-generated program sets parsed/validated/evaluated concurrently; differential against the sequential result; unique-component-id invariant; Go race detector as a history invariant (same package run as a -race and a plain build)",
+         "Exploration. Sets of 2-16 generated and corpus programs (with and without if/for, map literals, imports, interpolated strings, sinks; some invalid) are parsed 50-500 times each from 2-16 goroutines, with no runtime provider, one shared provider or fresh providers; host goroutines also Validate, pretty-print and Eval, and sinks on several workers import and interpolate (run-time parses). Every concurrent tree / error text must equal the sequential result for the same text; runtime component ids must be unique; a fatal 'concurrent map' abort is caught through the write-ahead case file; in the -race pass a report whose two access sites lie in parser/ or in the interpreter's component construction is a violation (other races are counted).",
+         "Schedules are sampled; the detector reports only races that occur in an explored execution (race-pass failures do not shrink). The static scan mentioned in the anchor is another technique and is not used.",
+         "DESIGN.md 4/C13, 2.7"),
  "C14": ("exhaustive piece-sequence enumeration + rapid generation + native fuzzing of string literals against a single-pass reference and a side-effect counter",
          "Exploration. Literals are built from pieces {text, {{, }}, {, }, quotes, escapes, newline, expression} in every order up to 4/3 (quick) or 5/4 (thorough) pieces for quoted/raw forms, each under 6 values of the substituted variable (including values that contain {{tick()}}, {{x}} (self-reproducing), }} and {{); random literals to 8 pieces; thorough adds FuzzInterpolate. Oracle: the harness's own single left-to-right pass (leftmost {{, nearest following }}, continue after the substituted text, raw strings untouched), the number of tick() side effects written in the literal itself, termination within a node-visit budget (step-counting debugger), no panic.",
          "Empty {{}}, code the reference does not know and the text of an inline error marker are wildcard slots (the documentation leaves them open).",
